@@ -778,6 +778,16 @@ func ruleC06Flex(c *Ctx) {
 				l, ok := constStr(call.Call.Args[1])
 				return ok && l == lit
 			}
+			// `rest, found := strings.CutPrefix(s, lit)` / CutSuffix
+			if ex, ok := cond.(*ssa.Extract); ok && truth && ex.Index == 1 {
+				if call, ok := ex.Tuple.(*ssa.Call); ok && call.Call.Args[0] == ssa.Value(s) {
+					q := calleeQ(&call.Call)
+					if (fn == "strings.HasPrefix" && q == "strings.CutPrefix") || (fn == "strings.HasSuffix" && q == "strings.CutSuffix") {
+						l, ok := constStr(call.Call.Args[1])
+						return ok && l == lit
+					}
+				}
+			}
 			// s[0] == ch  /  s[len(s)-1] == ch
 			cmp, ok := isCmp(cond, token.EQL)
 			if !ok || !truth {
@@ -831,6 +841,12 @@ func ruleC06Flex(c *Ctx) {
 		if call, ok := v.(*ssa.Call); ok && calleeQ(&call.Call) == "strings.TrimPrefix" && call.Call.Args[0] == ssa.Value(s) {
 			l, ok := constStr(call.Call.Args[1])
 			return ok && l == ch
+		}
+		if ex, ok := v.(*ssa.Extract); ok && ex.Index == 0 {
+			if call, ok := ex.Tuple.(*ssa.Call); ok && calleeQ(&call.Call) == "strings.CutPrefix" && call.Call.Args[0] == ssa.Value(s) {
+				l, ok := constStr(call.Call.Args[1])
+				return ok && l == ch
+			}
 		}
 		return false
 	}
@@ -893,6 +909,11 @@ func ruleC06Flex(c *Ctx) {
 		atGuard := strFact(lk.Block(), "strings.HasPrefix", "@")
 		// an index s[0] needs len(s) >= 1; HasPrefix(s,"@") implies it
 		hasPrefixForm := guardedBy(lk.Block(), func(cond ssa.Value, truth bool) bool {
+			if ex, ok := cond.(*ssa.Extract); ok && truth && ex.Index == 1 {
+				if call, ok := ex.Tuple.(*ssa.Call); ok && calleeQ(&call.Call) == "strings.CutPrefix" && call.Call.Args[0] == ssa.Value(s) {
+					return true
+				}
+			}
 			call, ok := cond.(*ssa.Call)
 			return ok && truth && calleeQ(&call.Call) == "strings.HasPrefix" && call.Call.Args[0] == ssa.Value(s)
 		})
